@@ -712,6 +712,13 @@ fn expect_terminal(
         if errs != 1 || terms != 0 {
             out.push(finding("C18", "C18:error-terminal", format!("one member failed: expected exactly one Error and no Terminate at the sink, saw {errs} / {terms}"), 0));
         }
+        // the failure ends the output: the siblings are disposed before the sink is told, so no Data delivery
+        // begins after the Error
+        if let Some((epos, _)) = terminals.iter().find(|t| matches!(t.1, M::Error(_))) {
+            if sink_enters.iter().any(|(i, e)| *i > *epos && matches!(e.what, What::SinkRecv(M::Data(_)))) {
+                out.push(finding("C18", "C18:data-after-error", "a Data delivery began after the Error".to_string(), 0));
+            }
+        }
         return;
     }
     if all_end {
